@@ -5,6 +5,7 @@ CONSTANTS
   FIX_BOUNDARY = TRUE
   FIX_REKEY = FALSE
   FIX_MOVED = TRUE
+  FIX_RMALL = TRUE
   FIX_ENOENT = TRUE
 INVARIANTS TrueNames NoSpuriousError RemoveWorks Covered OwnTreeOnly
 CHECK_DEADLOCK FALSE
